@@ -40,6 +40,16 @@ CHECKS = {
             "Trusted: franz-go's in-memory mark bookkeeping on a client that never connects; the broker-dependent part of Plugin.Start/Stop is "
             "not run; actions/output are harness-owned; TLC integers are 32-bit so offsets above 2^31 are checked outside TLC with the spec's formulas.",
             "DESIGN.md §6 C10"),
+    "C04": ("TLC model checking incl. liveness under fairness of detailed pool protocol specs (EventPoolLowMem/EventPoolStd: atomics, lock, "
+            "cond-var, heartbeat) and of Pipeline.tla; TLC trap schedule of the lost-wake-up window replayed on the real pools through "
+            "verif hook gates; end-to-end progress runs of the real pipeline validated by TLC",
+            "NoWedge and eventual completion are model-checked for both pool protocols and for the pipeline model under weak fairness, and the "
+            "mechanisms (heartbeat condition) are shown necessary by spec mutants; the window TLC constructs (Broadcast between availability "
+            "check and Cond.Wait) is then reproduced deterministically on the real pools and the getter must resume within a bound; real "
+            "pipeline runs at capacity 1, single processor, time-out-only flushes and timer-only batch flushes must reach idle.",
+            "Trusted: bounded-time is judged by generous wall-clock bounds with the heartbeat interval shortened in-package; Go scheduler "
+            "fairness; stream/processor protocol is covered at the granularity of Pipeline.tla (joinStream/attach/instantGet/blockGet/time-out), "
+            "not lock by lock.", "DESIGN.md §6 C04"),
     "C06": ("TLA+ transcription of the read loop model-checked against a declarative line/offset oracle (TLC, exhaustive "
             "small scope); every TLC-exported case replayed on the real worker.work and compared",
             "TLC proves on the whole small-scope case space (all contents over {x,\\n} up to the bound x all splits into appends x "
